@@ -13,9 +13,9 @@ ALL = ["C%02d" % i for i in range(1, 21)]
 # checks that share machinery with a property (tried when the property's own check stays quiet)
 NEIGHBOURS = {
     "C01": ["C02", "C03", "C10", "C16", "C17", "C18", "C19", "C05", "C07"],
-    "C02": ["C01", "C03", "C04", "C19"], "C03": ["C01", "C02", "C04", "C19", "C07"], "C04": ["C01", "C02", "C03", "C07"],
+    "C02": ["C01", "C03", "C04", "C19", "C13", "C11"], "C03": ["C01", "C02", "C04", "C19", "C07"], "C04": ["C01", "C02", "C03", "C07"],
     "C05": ["C06", "C07", "C15", "C10", "C01"], "C06": ["C05", "C07"], "C07": ["C05", "C06", "C16", "C17", "C18", "C01"],
-    "C08": ["C11", "C15"], "C09": ["C08", "C15"], "C10": ["C01", "C12", "C15"], "C11": ["C08", "C13", "C17", "C18"],
+    "C08": ["C11", "C15"], "C09": ["C08", "C15", "C11"], "C10": ["C01", "C12", "C15"], "C11": ["C08", "C13", "C17", "C18"],
     "C12": ["C10", "C13", "C16"], "C13": ["C11", "C12"], "C14": ["C01"], "C15": ["C08", "C10"],
     "C16": ["C12", "C07", "C01"], "C17": ["C11", "C07", "C01"], "C18": ["C11", "C07", "C01"], "C19": ["C03", "C01", "C07"], "C20": ["C03"],
 }
